@@ -29,8 +29,11 @@ from . import c02
 PROP = "C11"
 COQ_TARGETS = ["theories/Model/LikRun.vo"]
 
-LNL_TOL = 1e-8      # |lnL' - k lnL| <= LNL_TOL * max(1, |k lnL|)
+LNL_TOL = 1e-8      # |lnL' - k lnL| <= LNL_TOL * max(1, |k lnL|)  (+ conditioning slack for reroot/split, see site_slack)
 SITE_TOL = 1e-9     # relative, per position
+P_ABS = 1e-13       # reroot/split recompute P = exp(Qt) for other lengths: expm is accurate to ~1e-15 ABSOLUTE per entry,
+                    # so a position whose likelihood is itself ~1e-13 carries no relative accuracy (conditioning, not a defect)
+APPROX = ("reroot", "split")
 
 
 # ------------------------------------------------------------------ base configurations
@@ -221,6 +224,10 @@ def expected_sites(base_sites, v):
     return list(base_sites)
 
 
+def site_close(a, b, approx):
+    return abs(a - b) <= SITE_TOL * max(abs(a), abs(b)) + (P_ABS if approx else 0.0)
+
+
 def key_of(v):
     return f"{v['xf']}:{c02.shape_key(v)}"
 
@@ -234,13 +241,15 @@ def compare_variant(rep, base, bobs, v, vobs, stats):
     want = v["factor"] * bobs["lnL"]
     stats["pairs"] += 1
     stats["by_xf"][v["xf"]] = stats["by_xf"].get(v["xf"], 0) + 1
-    if not abs(vobs["lnL"] - want) <= LNL_TOL * max(1.0, abs(want)):
+    approx = v["xf"] in APPROX
+    slack = sum(P_ABS / max(x, 1e-300) for x in bobs["site_liks"]) if approx else 0.0
+    if not abs(vobs["lnL"] - want) <= LNL_TOL * max(1.0, abs(want)) + slack:
         rep.violation(key, dict(case=strip(v), base=strip(base), expected_by_spec=want, observed_impl=vobs["lnL"],
                                 base_lnL=bobs["lnL"], broken=f"lnL changes under `{v['xf']}` (Properties/C11.v)"))
         return False
     exp = expected_sites(bobs["site_liks"], v)
     got = vobs["site_liks"]
-    if len(exp) != len(got) or any(not c02.close(a, b, SITE_TOL) for a, b in zip(exp, got)):
+    if len(exp) != len(got) or any(not site_close(a, b, approx) for a, b in zip(exp, got)):
         rep.violation("sites:" + key, dict(case=strip(v), base=strip(base), expected_by_spec=exp, observed_impl=got,
                                            broken=f"per-position likelihoods change under `{v['xf']}`"))
         return False
@@ -261,7 +270,9 @@ def run(tier: str, seed: int) -> int:
     rng = random.Random(seed * 1000003 + 11)
     pr = core.proof_stage(PROP, COQ_TARGETS)
     core.proof_coverage(rep, pr, "make theories/Properties/C11.vo && coqc gen/assum_C11.v (Print Assumptions)", [
-        "the theorems are about an abstract commutative semiring; IEEE-754 rounding is outside them (tolerance 1e-8 on lnL, rel 1e-9 per position)",
+        "the theorems are about an abstract commutative semiring; IEEE-754 rounding is outside them (tolerance 1e-8 on lnL, rel 1e-9 per position; "
+        "for reroot/split, where P = exp(Qt) is recomputed for other lengths, additionally 1e-13 absolute per position likelihood: "
+        "expm is only absolutely accurate, so positions with likelihood below ~1e-10 are compared loosely)",
         "reversibility pi_i P_ij = pi_j P_ji and the product rule P(t1+t2) = P(t1) P(t2) are premises of pulley / edge_split; "
         "that the implementation's matrices satisfy them is only observed numerically (C05 obligation)",
         "the transformations are applied by the harness (its own tree/alignment rewriting) and fed to the real likelihood function; "
@@ -351,7 +362,7 @@ def run(tier: str, seed: int) -> int:
             if same_P:
                 bad = exp != vsites
             else:
-                bad = len(exp) != len(vsites) or any(not c02.close(float(a), float(x), SITE_TOL) for a, x in zip(exp, vsites))
+                bad = len(exp) != len(vsites) or any(not site_close(float(a), float(x), v["xf"] in APPROX) for a, x in zip(exp, vsites))
             if bad:
                 disagreements.append(dict(key="model-invariance:" + key_of(v), case=strip(v), base=strip(b),
                                           expected_by_spec=[float(a) for a in exp], model_output=[float(a) for a in vsites],
@@ -364,7 +375,7 @@ def run(tier: str, seed: int) -> int:
         bm = mres[id(b)][0]
         s0, _ = model_sites(bm, o, e)
         s1, _ = model_sites(r, o, e)
-        if any(not c02.close(float(a), float(x), SITE_TOL) for a, x in zip(s0, s1)):
+        if any(not site_close(float(a), float(x), True) for a, x in zip(s0, s1)):
             disagreements.append(dict(key="model-reroot-value", case=strip(b), path=p, expected_by_spec=[float(a) for a in s0],
                                       model_output=[float(a) for a in s1]))
 
@@ -416,7 +427,9 @@ def replay(path: str) -> int:
     print(f"impl  : lnL(transformed by {v['xf']}) = {ov['lnL']!r}")
     print(f"oracle: {v.get('factor', 1)} * lnL(original) = {want!r}")
     exp = expected_sites(ob["site_liks"], v)
-    bad = (not abs(ov["lnL"] - want) <= LNL_TOL * max(1.0, abs(want)) or len(exp) != len(ov["site_liks"])
-           or any(not c02.close(a, x, SITE_TOL) for a, x in zip(exp, ov["site_liks"])))
+    approx = v["xf"] in APPROX
+    slack = sum(P_ABS / max(x, 1e-300) for x in ob["site_liks"]) if approx else 0.0
+    bad = (not abs(ov["lnL"] - want) <= LNL_TOL * max(1.0, abs(want)) + slack or len(exp) != len(ov["site_liks"])
+           or any(not site_close(a, x, approx) for a, x in zip(exp, ov["site_liks"])))
     print("REPRODUCED" if bad else "not reproduced")
     return 1 if bad else 0
